@@ -57,6 +57,7 @@ MUTATORS = {
     'close_batch': ('closeBatch', 'PATCH', '/api/v1alpha/batches/{batch_id}/close'),
 }
 WHO = ['owner', 'mate', 'stranger', 'developer']
+# keys of the two defects repaired by 4c50f4344 (kept so that a regression is reported under a stable name)
 KEY_FAST = 'update_batch_fast: a non-owner who sends an existing update token with empty bunch/job_groups commits the update'
 KEY_CREATE = 'create_update: a non-owner who sends an existing update token gets 2xx with the update ids instead of an error'
 
@@ -76,9 +77,9 @@ class C14(Prop):
                   '/ auth-service / billing-project member / owner / well-formed batch id), refuses the caller before the handler body unless '
                   'the caller is an active authenticated user and, for batch-scoped read/cancel/delete, a member of the batch\'s billing project, '
                   'for billing-project administration a developer or the auth service; a refused request leaves the state unchanged. '
-                  'Owner-only mutators: five of seven start with the owner-filtered SELECT (extracted), and in the model of their control flow a '
-                  'non-owner is refused without change PROVIDED the request does not carry an update token that already exists — the full '
-                  'statement is refuted in Lean and on the real code (two known findings).')
+                  'Owner-only mutators: all seven start with the owner-filtered SELECT (extracted, owner_filter_first), and in the model of '
+                  'their control flow a non-owner is refused without change whatever update token the request carries (owner_only). The '
+                  'control flow before commit 4c50f4344 (token lookup without user filter) is kept as mutateOld with its refutation.')
     level_note = ('PARTIAL for the owner-only mutators: `mutate` is a hand model of which check comes first, tied to the real handlers only by '
                   'the 39 scenario runs over minisql (MySQL itself is not available; the deprecated close_batch answers 500 to every caller on the current schema — Unknown column job_groups.deleted — so its owner case is not run). The decorator semantics (`guard`) are tied by exhaustive '
                   'differential runs (68 routes x 128 callers) with the session lookup stubbed at Authenticator._fetch_userdata and aiohttp '
@@ -95,7 +96,7 @@ class C14(Prop):
     assumptions = ['the session lookup (_fetch_userdata / auth service) returns the true userdata of the caller',
                    'aiohttp dispatches a request only to the handler object registered for its method and path',
                    'decorators can reach the handler body only through the function they wrap (Python closure semantics)',
-                   'non-owners do not know the idempotency token of another user\'s open update (hypothesis of owner_only_partial)']
+                   ]
     budget = {'quick': 0, 'thorough': 0}          # the case space is enumerated completely in both tiers
     search_budget = {'quick': 0, 'thorough': 0}
 
